@@ -6,6 +6,7 @@
 
 #include <algorithm>
 #include <cstdio>
+#include <cstdlib>
 #include <cstring>
 #include <iostream>
 #include <map>
@@ -445,10 +446,11 @@ static void doRun(std::stringstream &ss, bool trace) {
     steps++;
     maxStack = std::max(maxStack, v.stack.size());
     maxData = std::max(maxData, v.data.size());
-    if (trace && r && !v.isDone()) {
+    BreakPoint cb = v.getCurrentBreak();
+    // a stop at a site (also when the next instruction is HALT: the line of a STOP statement)
+    if (trace && r && !(cb.line == -1 && cb.file == "none")) {
       if (stops < maxStops) {
         if (stops) tr += "|";
-        BreakPoint cb = v.getCurrentBreak();
         tr += (cb.line == -1 && cb.file == "none" ? std::string("none") : bpStr(cb)) +
               ";" + actsStr(v);
       }
@@ -754,6 +756,118 @@ static void doDetect(std::stringstream &ss) {
   std::cout << "DETECT nonlr=" << out << std::endl;
 }
 
+
+// ---------- C18: several instances in one process / several threads ----------
+static std::string compileAndRun(const std::map<FileName, FileContent> &files, const std::string &mainf, long budget) {
+  CodegenResult cr = compile(files, mainf);
+  std::string o = std::to_string((int)cr.generated_correctly) + " ";
+  for (auto &e : cr.errors) o += std::to_string((int)e.t) + ":" + hex(e.message) + ":" + hex(e.file) + ":" + std::to_string(e.line) + ",";
+  o += " " + programStr(cr.code);
+  if (cr.generated_correctly) {
+    VM v(cr.code);
+    long steps = 0;
+    while (!v.isDone() && steps < budget) {
+      v.executeSingle();
+      steps++;
+    }
+    o += " steps=" + std::to_string(steps) + " acts=" + actsStr(v);
+  }
+  return o;
+}
+
+struct MTArg {
+  int t, rounds;
+  std::vector<std::pair<std::string, std::map<FileName, FileContent>>> *sets;
+  std::vector<std::string> *expected;
+  int bad;
+};
+static void *mtWorker(void *p) {
+  MTArg *a = (MTArg *)p;
+  a->bad = 0;
+  for (int j = 0; j < a->rounds; j++) {
+    size_t k = (a->t + j) % a->sets->size();
+    std::string r = compileAndRun((*a->sets)[k].second, (*a->sets)[k].first, 20000);
+    if (r != (*a->expected)[k]) a->bad++;
+  }
+  return NULL;
+}
+static void doMT(std::stringstream &ss) {
+  int nthreads, rounds, k;
+  ss >> nthreads >> rounds >> k;
+  std::vector<std::pair<std::string, std::map<FileName, FileContent>>> sets;
+  for (int i = 0; i < k; i++) {
+    std::string mainf;
+    auto files = readFiles(ss, mainf);
+    sets.push_back({mainf, files});
+  }
+  std::vector<std::string> expected;
+  for (auto &s : sets) expected.push_back(compileAndRun(s.second, s.first, 20000));
+  // the same inputs again, after everything else was compiled: must be identical
+  int seqbad = 0;
+  for (size_t i = 0; i < sets.size(); i++)
+    if (compileAndRun(sets[i].second, sets[i].first, 20000) != expected[i]) seqbad++;
+  std::vector<pthread_t> th(nthreads);
+  std::vector<MTArg> args(nthreads);
+  pthread_attr_t attr;
+  pthread_attr_init(&attr);
+  pthread_attr_setstacksize(&attr, (size_t)256 << 20);
+  for (int t = 0; t < nthreads; t++) {
+    args[t] = {t, rounds, &sets, &expected, 0};
+    pthread_create(&th[t], &attr, mtWorker, &args[t]);
+  }
+  int bad = 0;
+  for (int t = 0; t < nthreads; t++) {
+    pthread_join(th[t], NULL);
+    bad += args[t].bad;
+  }
+  std::cout << "MT seqbad=" << seqbad << " mtbad=" << bad << " runs=" << nthreads * rounds << std::endl;
+}
+
+// several VM instances alive at once, operations interleaved: ops = i:op,i:op,...
+static void doVMS(std::stringstream &ss) {
+  auto f = fields(ss);
+  int n = std::stoi(f["n"]);
+  std::vector<VM> vms;
+  for (int i = 0; i < n; i++) {
+    std::map<std::string, std::string> g;
+    for (auto k : {"code", "maps", "pb", "li"}) g[k] = f[std::string(k) + std::to_string(i)];
+    vms.push_back(VM(parseProgram(g)));
+  }
+  std::string out;
+  bool first = true;
+  for (auto &iop : splitList(f["ops"], ',')) {
+    auto c = iop.find(':');
+    int i = std::stoi(iop.substr(0, c));
+    std::string op = iop.substr(c + 1);
+    VM &v = vms[i];
+    long ret = 0;
+    if (op == "s")
+      ret = v.executeSingle();
+    else if (op == "e") {
+      long k = 0;
+      bool r = false;
+      while (k < 20000 && !(r = v.executeSingle())) k++;
+      ret = r ? 1 : -1;
+    } else if (op == "c")
+      v.clearBreakpoints();
+    else if (op == "r")
+      v.reset();
+    else if (op == "t1")
+      v.setSteppingMode(true);
+    else if (op == "t0")
+      v.setSteppingMode(false);
+    else if (op[0] == 'b' || op[0] == 'd') {
+      BreakPoint bp = parseBp(op.substr(2));
+      ret = v.setBreakPoint(bp.file, bp.line, op[0] == 'b');
+    }
+    if (!first) out += "|";
+    first = false;
+    out += vmDump(v, ret, false);
+  }
+  if (first) out = "-";
+  std::cout << "VMS " << out << std::endl;
+}
+
 static void *mainLoop(void *) {
   std::string line;
   while (std::getline(std::cin, line)) {
@@ -782,6 +896,10 @@ static void *mainLoop(void *) {
       doLR(ss);
     else if (cmd == "DETECT")
       doDetect(ss);
+    else if (cmd == "MT")
+      doMT(ss);
+    else if (cmd == "VMS")
+      doVMS(ss);
     else
       std::cout << "BADREQ" << std::endl;
   }
@@ -792,6 +910,10 @@ int main() {
   std::ios::sync_with_stdio(false);
   // deep recursion in parse.cpp / macro.cpp / gen.cpp is linear in the input and
   // ASan inflates frames: run on a thread with a large stack (DESIGN 3.2)
+  if (getenv("THEO_DEFAULT_STACK")) {  // replay of F8: the process's own stack
+    mainLoop(NULL);
+    return 0;
+  }
   pthread_attr_t attr;
   pthread_attr_init(&attr);
   pthread_attr_setstacksize(&attr, (size_t)1 << 30);
